@@ -92,7 +92,19 @@ def finish(mod, prop, tier, seed, recs, t0, partial=False):
     obs = [r for r in recs if r['verdict'] not in ('jobmeta', 'meta')]
     P = [r for r in obs if r.get('tier', 'P') == 'P']
     Bn = [r for r in obs if r.get('tier') == 'B']
+    # lemma / clause dependencies: an obligation that used another obligation's conclusion as a hypothesis
+    # only counts when that obligation is itself proved in this run
+    by_id = {}
+    for r in P:
+        by_id.setdefault(r['id'], r)
+    for r in P:
+        for dep in r.get('depends', []) or []:
+            hits = [x for i, x in by_id.items() if i == dep or i.startswith(dep + '#') or i.startswith(dep)]
+            if r['verdict'] == 'proved' and (not hits or any(h['verdict'] != 'proved' for h in hits)):
+                r['verdict'] = 'undecided'
+                r['detail'] = f'depends on {dep}, which is not proved in this run'
     proved = [r for r in P if r['verdict'] == 'proved']
+    undec = [r for r in obs if r['verdict'] == 'undecided']
     refuted = [r for r in obs if r['verdict'] == 'refuted']
     undec = [r for r in obs if r['verdict'] == 'undecided']
     faults = [r for r in obs if r['verdict'] in ('fault', 'crash')]
